@@ -58,7 +58,7 @@ func H_C11_list() {
 	for _, nm := range names {
 		vPut(g, "b", nm, []byte("c"))
 	}
-	prefix := c11Str("prefix", vChoice("prefix.len", 0, 1))
+	prefix := c11Str("prefix", vChoice("prefix.len", 0, 2))
 	delim := ""
 	if dl := vChoice("delimiter.len", 0, vBound("delimlen", 1, 2)); dl > 0 {
 		delim = c11Str("delimiter", dl)
